@@ -159,6 +159,7 @@ func cmdCheck(args []string) int {
 	res.Seed = seed
 	res.LoadS = loadS
 	res.WallS = time.Since(t0).Seconds()
+	res.start = t0
 	return res.Report()
 }
 
@@ -185,6 +186,7 @@ type PropResult struct {
 	WallS       float64
 	Structural  []*Obligation
 	extraAssume []string
+	start       time.Time
 }
 
 // CheckProperty generates and discharges every obligation tagged with the property.
@@ -473,6 +475,25 @@ func (r *PropResult) Report() int {
 		fmt.Printf("VIOLATION property=%s replay=%s%s\n", prop, path, suffix)
 		nViol++
 	}
+	// thorough tier: scenario regression against the real code and the must-fail corpus
+	var thor *thoroughResult
+	if r.Tier == "thorough" && os.Getenv("GVC_NO_SELFTEST") == "" {
+		var kt []string
+		for i := range r.Known {
+			if r.Known[i].Fixed == "" {
+				kt = append(kt, r.Known[i].Text)
+			}
+		}
+		var paths []string
+		thor, paths = r.thorough(funcs, kt)
+		for _, p := range paths {
+			fmt.Printf("VIOLATION property=%s replay=%s\n", prop, p)
+			nViol++
+		}
+	}
+	if !r.start.IsZero() {
+		r.WallS = time.Since(r.start).Seconds()
+	}
 	// evidence
 	var fl []string
 	for f := range funcs {
@@ -524,6 +545,7 @@ func (r *PropResult) Report() int {
 		"known_findings":         nKnown,
 		"known_findings_replayed": knownReplay,
 		"bounded_checks":         bounded,
+		"thorough_extras":        thor,
 		"explanation":            "obligations counts the proof obligations this claim rests on; obligations that are refuted on the current tree and recorded in KNOWN_FINDINGS.jsonl (known_findings) are generated and re-posed on every run but are not part of the proved set: the property is NOT proved for the clause they belong to",
 		"violations":             nViol,
 		"covers_checked":         nCover,
